@@ -72,6 +72,23 @@ func defOf(info *types.Info, body ast.Node, e ast.Expr) ast.Expr {
 	return def
 }
 
+// resolveLocal follows single-definition locals (through conversions) to the
+// expression that defines them.
+func resolveLocal(info *types.Info, body ast.Node, e ast.Expr) ast.Expr {
+	for i := 0; i < 6 && e != nil; i++ {
+		e = astStripConv(info, e)
+		d := defOf(info, body, e)
+		if d == nil {
+			return e
+		}
+		if _, isIdent := ast.Unparen(astStripConv(info, d)).(*ast.Ident); !isIdent {
+			return e // keep the last local name: it is what the sibling uses
+		}
+		e = d
+	}
+	return e
+}
+
 func sameExpr(a, b ast.Expr) bool {
 	return a != nil && b != nil && types.ExprString(ast.Unparen(a)) == types.ExprString(ast.Unparen(b))
 }
@@ -162,12 +179,12 @@ func c03(p *an.Prog, r *an.R, tier string) {
 					if l := litField(cl, "Line"); l != nil {
 						lineSlice, _ = ast.Unparen(l).(*ast.SliceExpr)
 					}
-					okSlice := lineSlice != nil && sameExpr(lineSlice.Low, ls) && sameExpr(lineSlice.High, le)
+					okSlice := lineSlice != nil && sameExpr(resolveLocal(info, body, lineSlice.Low), resolveLocal(info, body, ls)) && sameExpr(resolveLocal(info, body, lineSlice.High), resolveLocal(info, body, le))
 					r.Check(okSlice, "C03.R2", fname+"/LineMatch/line-text-is-data[LineStart:LineEnd]", cl.Pos(), "Line, LineStart and LineEnd are built from the same two offsets", "the line text is not data[LineStart:LineEnd] for the offsets stored in the same LineMatch")
 					// LineStart defined as lineStart(LineNumber)
 					okStart := false
-					if dd := defOf(info, body, ls); dd != nil {
-						if c := isCallNamed(astStripConv(info, dd), "lineStart"); c != nil && len(c.Args) == 1 && sameExpr(c.Args[0], ln) {
+					if dd := defOf(info, body, resolveLocal(info, body, ls)); dd != nil {
+						if c := isCallNamed(astStripConv(info, dd), "lineStart"); c != nil && len(c.Args) == 1 && sameExpr(resolveLocal(info, body, c.Args[0]), resolveLocal(info, body, ln)) {
 							okStart = true
 						}
 					}
@@ -181,13 +198,13 @@ func c03(p *an.Prog, r *an.R, tier string) {
 					ok := false
 					if gl := isCallNamed(content, "getLines"); gl != nil && len(gl.Args) == 3 && cs != nil {
 						first := gl.Args[1]
-						lnOK := sameExpr(astStripConv(info, litField(cs, "LineNumber")), first)
+						lnOK := sameExpr(resolveLocal(info, body, litField(cs, "LineNumber")), resolveLocal(info, body, first))
 						boOK := false
-						bo := astStripConv(info, litField(cs, "ByteOffset"))
+						bo := resolveLocal(info, body, litField(cs, "ByteOffset"))
 						if dd := defOf(info, body, bo); dd != nil {
 							bo = astStripConv(info, dd)
 						}
-						if c := isCallNamed(bo, "lineStart"); c != nil && len(c.Args) == 1 && sameExpr(c.Args[0], first) {
+						if c := isCallNamed(bo, "lineStart"); c != nil && len(c.Args) == 1 && sameExpr(resolveLocal(info, body, c.Args[0]), resolveLocal(info, body, first)) {
 							boOK = true
 						}
 						colOK := false
